@@ -261,3 +261,49 @@ int bad_r05l_loop_one_too_far(int n, int **out)
         *out = v;
         return OK;
 }
+
+/* R05t ------------------------------------------------------------------ */
+#include <stdarg.h>
+#include <stdio.h>
+int bad_r05t_twice(char *buf, int n, const char *fmt, ...)
+{
+        va_list ap;
+        int w;
+        va_start(ap, fmt);
+        w = vsnprintf(buf, n, fmt, ap);
+        if (w >= n) {
+                w = vsnprintf(buf, n, fmt, ap);   /* ap already consumed */
+        }
+        va_end(ap);
+        return w;
+}
+
+int ok_r05t_restart(char *buf, int n, const char *fmt, ...)
+{
+        va_list ap;
+        int w;
+        va_start(ap, fmt);
+        w = vsnprintf(buf, n, fmt, ap);
+        va_end(ap);
+        if (w >= n) {
+                va_start(ap, fmt);
+                w = vsnprintf(buf, n, fmt, ap);
+                va_end(ap);
+        }
+        return w;
+}
+
+int ok_r05t_copy(char *buf, int n, const char *fmt, ...)
+{
+        va_list ap, ap2;
+        int w;
+        va_start(ap, fmt);
+        va_copy(ap2, ap);
+        w = vsnprintf(buf, n, fmt, ap);
+        if (w >= n) {
+                w = vsnprintf(buf, n, fmt, ap2);
+        }
+        va_end(ap2);
+        va_end(ap);
+        return w;
+}
